@@ -136,8 +136,9 @@ class Ctx:
         return max(1, int((quick if self.tier == "quick" else thorough) * scale))
 
     # ---- bookkeeping
-    def note(self, case, sig=None, labels=(), sigs=None):
-        self.evaluations += 1
+    def note(self, case, sig=None, labels=(), sigs=None, evals=1):
+        # evals: how many oracle evaluations the case stands for (a program of expressions counts each)
+        self.evaluations += max(1, int(evals))
         for l in labels:
             self.labels[l] += 1
         sigs = list(sigs or [])
@@ -185,7 +186,7 @@ class Ctx:
                 self.note(case, sig=None, labels=("known:" + kid,))
                 return True
             raise
-        self.note(case, res.get("sig"), res.get("labels", ()), res.get("sigs"))
+        self.note(case, res.get("sig"), res.get("labels", ()), res.get("sigs"), res.get("evals", 1))
         return True
 
     # ---- hypothesis driver
